@@ -16,7 +16,7 @@ PROP = "C15"
 IMPORTS = "From JV Require Import Lib.Base Lib.C15Val Model.C15Links Spec.C15Spec Corr.C15Judge."
 RULE = ("seeded random parsers: 3-7 declarations (int/str/List[int]/Any arguments, dotted groups, class-typed "
         "arguments, lists of classes) with 1-4 link_arguments calls (single/multiple sources, group-valued and "
-        "class-valued sources, 10 compute functions, the three target kinds; ~30% of the link sets contain a chain, "
+        "class-valued sources, 11 compute functions, the three target kinds; ~30% of the link sets contain a chain, "
         "double target, missing key, prefix overlap or self link), each with 4 inputs through defaults/env/--cfg/"
         "options/parse_object, ~35% of them supplying a value for a target (option, config, object, env, enclosing "
         "group or class spec). Non-trivial = at least one link accepted and the pre-link configuration reached; "
@@ -31,16 +31,24 @@ RULE = ("seeded random parsers: 3-7 declarations (int/str/List[int]/Any argument
         "place of the reference the main file holds). HISTORIES: every flat case parses a SECOND input on the same parser "
         "object, after the first parse, after the lists the first parse put at link targets were edited in place, and after "
         "dump / re-parse / save; the second input is the first with values of Any-typed arguments replaced by values of "
-        "another kind that compare and hash equal (1 <-> True, 0 <-> False); 10 compute functions, among them the "
+        "another kind that compare and hash equal (1 <-> True, 0 <-> False); 11 compute functions, among them the "
         "type-sensitive `kind` (joins the type names of its arguments) and the list-returning tup / pair / cat. Families "
         "`gen_chains` (well-typed int chains: target = k-th source, source = earlier target, same target twice, either "
         "order) and `gen_whole` (a WHOLE class-typed argument as link target, d -> c, alone or with a second link whose "
-        "target or source lies inside the enclosing target c or inside its source d, either declaration order).")
+        "target or source lies inside the enclosing target c or inside its source d, either declaration order). Family "
+        "`gen_convert`: a group of ints linked to a Dict[str, int]-typed argument (identity: Namespace -> dict by the target's "
+        "type hint) and through dsum(d: dict) (Namespace -> dict by the parameter annotation), and a REQUIRED __init__ "
+        "parameter as link target with the class spec leaving it out. An input of a class-typed parser that is rejected "
+        "before the link phase is parsed AGAIN with a value given for every linked init_arg in every class spec: accepted "
+        "then, with every link applied, means the target was required from the user. ~5% of the odd link sets name several "
+        "sources without a compute function, ~5% a key below a class-typed argument that does not go through init_args. "
+        "Family `gen_nested_source`: the one overlap the repaired check accepts — a later group-valued SOURCE that contains an "
+        "earlier target (a -> g.x, then g -> t), either declaration order, ints only, whole pipeline modelled.")
 TRUSTED = [
     "Coq 8.16.1 kernel + vm_compute",
     "tie/impl/c15_links.py: observation of the real parser (wraps ActionLink.apply_parsing_links in the harness "
     "process to read the pre-link configuration), canonicalisation, the generated module c15mod",
-    "the 10 compute functions exist twice: Python (c15_links.py FUNCTIONS_SRC) and Gallina (C15Judge.fn_interp); "
+    "the 11 compute functions exist twice: Python (c15_links.py FUNCTIONS_SRC) and Gallina (C15Judge.fn_interp); "
     "their agreement is exercised by every case, the theorems quantify over ALL functions",
     "hand-written model coq/Model/C15Links.v, tied by per-case agreement evaluated inside Coq",
     "probe_fixes (tie/props/c15.py): the two refutation witnesses are run on the implementation to select the model "
@@ -62,6 +70,9 @@ ASSUMPTIONS = [
     "histories (second parse, plus the re-parse of the dump) on one parser object",
     "Python booleans are encoded as the reserved strings <true> / <false> (Any-typed arguments only); floats are not in "
     "the value space",
+    "a dict VALUE (Dict[str,int]-typed argument m, parsers with class-typed arguments only) and a group Namespace are the "
+    "same VMap in the model: a dict-typed argument is never a link source, and a dict-typed target never gets a compute "
+    "function that hands a Namespace through (first) — type(x).__name__ would tell them apart, val cannot",
     "an argument has at most two option strings; the model identifies an option by the dest and whether the first or "
     "the second spelling was used",
     "values are finite trees without sharing: link sets WITH key overlaps never hand a group/class Namespace through by "
@@ -150,7 +161,7 @@ CLASSES = {
     "Req": [["p", "int", REQ], ["q", "int", 5]],
     "Lst": [["p", "int", 3], ["l", "list", [7]]],
 }
-FN = {"add": 0, "cat": 1, "tup": 2, "first": 3, "word": 4, "boom": 5, "gsum": 6, "inc": 7, "pair": 8, "kind": 9}
+FN = {"add": 0, "cat": 1, "tup": 2, "first": 3, "word": 4, "boom": 5, "gsum": 6, "inc": 7, "pair": 8, "kind": 9, "dsum": 10}
 WORDS = ["ab", "cd", "xyz", "q", "foo"]
 
 
@@ -162,6 +173,8 @@ def rand_val(rng, ty):
         return rng.choice(WORDS)
     if ty == "list":
         return [rng.randint(0, 9) for _ in range(rng.randint(0, 3))]
+    if ty == "dict":
+        return {k: rng.randint(0, 9) for k in rng.sample(["x", "y", "z"], rng.randint(0, 2))}
     return rng.choice([rng.randint(0, 9), rng.choice([0, 1]), rng.choice([True, False]), rng.choice(WORDS), [rng.randint(0, 5)]])
 
 
@@ -173,10 +186,14 @@ def bad_val(rng, ty):
     return None  # str / any accept every text
 
 
-def spec(rng, cname=None, with_keys=None):
+def spec(rng, cname=None, with_keys=None, linked=()):
+    """linked: parameters that are link targets of the argument the spec is for — a REQUIRED one among them is mostly
+    left out (the target is not required from the user)"""
     cname = cname or rng.choice(list(CLASSES))
     init = {}
     for pn, pt, pd in CLASSES[cname]:
+        if pd == REQ and pn in linked and not (with_keys and pn in with_keys) and rng.random() < 0.75:
+            continue
         if pd == REQ or rng.random() < 0.4 or (with_keys and pn in with_keys):
             init[pn] = rand_val(rng, pt)
     return {"class_path": "c15mod." + cname, "init_args": init}
@@ -210,6 +227,11 @@ def gen_parser(rng, family):
             decls.insert(rng.randint(0, len(decls)), {"key": k, "kind": "class", "default": dflt, "required": False, "alias": None})
         if rng.random() < 0.6:
             decls.insert(rng.randint(0, len(decls)), {"key": "cs", "kind": "classlist", "default": [], "required": False, "alias": None})
+        # a Dict[str, int]-typed argument: as the target of an identity link from a group it makes apply_parsing_links
+        # convert the group's Namespace to a dict (by the target's type hint)
+        if rng.random() < 0.35:
+            decls.insert(rng.randint(0, len(decls)), {"key": "m", "kind": "dict", "default": None if rng.random() < 0.3 else rand_val(rng, "dict"),
+                                                      "required": False, "alias": None})
     return decls
 
 
@@ -221,7 +243,7 @@ def source_candidates(decls):
             if d["kind"] == "class":
                 out += [(d["key"] + ".init_args." + p, "int") for p in ("p", "q", "r")]
                 out.append((d["key"], "map"))
-        else:
+        elif d["kind"] != "dict":   # a dict VALUE as source: type(x).__name__ would tell it from a Namespace, val cannot
             out.append((d["key"], d["kind"]))
             if "." in d["key"]:
                 groups.add(d["key"].split(".")[0])
@@ -243,13 +265,19 @@ def target_candidates(decls):
 def pick_fn(rng, src_types, tgt_type):
     """mostly a function whose result fits the target"""
     n = len(src_types)
+    if tgt_type == "dict":
+        # identity from a group: Namespace -> dict by the target's type hint. A compute function that hands the Namespace
+        # through (first) would put a Namespace where the model's val has the same VMap: never used for dict targets
+        if src_types == ["map"] and rng.random() < 0.85:
+            return None
+        return rng.choice([FN["word"], FN["tup"], FN["add"], None if n == 1 else FN["kind"]])
     if rng.random() < 0.15:
         return rng.choice([None] + list(FN.values()))
     if tgt_type in ("int",):
         if all(t == "int" for t in src_types):
             return rng.choice([FN["add"], FN["add"], FN["first"], FN["inc"] if n == 1 else FN["add"], None if n == 1 else FN["add"]])
         if n == 1 and src_types[0] == "map":
-            return FN["gsum"]
+            return rng.choice([FN["gsum"], FN["dsum"]])
         return rng.choice([FN["first"], FN["add"], FN["word"]])
     if tgt_type == "list":
         if all(t == "list" for t in src_types):
@@ -325,9 +353,20 @@ def gen_links(rng, decls):
                     plain = [s for s, t in srcs if t == "int" and not s.startswith(m + ".")]
                     second = {"src": [rng.choice(plain)] if plain else [m], "tgt": rng.choice(inside), "fn": None}
                     links = [first, second] if rng.random() < 0.7 else [second, first]
-        elif r < 0.9:    # self link
+        elif r < 0.88:   # self link
             sk, st = rng.choice([s for s in srcs if s[1] != "map"] or srcs)
             links.append({"src": [sk], "tgt": sk, "fn": FN["inc"]})
+        elif r < 0.94:   # several sources without a compute function
+            k = min(len(srcs), rng.randint(2, 3))
+            tk, tt = rng.choice(tgts)
+            links.insert(rng.randint(0, len(links)), {"src": [s for s, _ in rng.sample(srcs, k)], "tgt": tk, "fn": None})
+        else:            # a key below a class-typed argument that does not go through init_args
+            cl = [d["key"] for d in decls if d["kind"] in ("class", "classlist")]
+            if cl:
+                ck = rng.choice(cl)
+                tk = ck + "." + rng.choice(["p", "q", "init_args", "class_path", "dict_kwargs.p"])
+                sk = rng.choice([s for s, t in srcs if t == "int"] or [srcs[0][0]])
+                links.insert(rng.randint(0, len(links)), {"src": [sk], "tgt": tk, "fn": None})
         if rng.random() < 0.3:
             rng.shuffle(links)
     # a whole class argument as link target is outside the modelled space (Model/C15Links.v add_link: EUnmodelled)
@@ -418,8 +457,8 @@ def gen_input(rng, decls, links, family, mode=None):
         tparams = [l["tgt"].split(".")[-1] for l in links if l["tgt"].startswith(d["key"] + ".init_args.")]
         wk = tparams if supply else None
         if d["kind"] == "class":
-            return spec(rng, with_keys=wk)
-        return [spec(rng, with_keys=wk) for _ in range(rng.randint(0, 3))]
+            return spec(rng, with_keys=wk, linked=tparams)
+        return [spec(rng, with_keys=wk, linked=tparams) for _ in range(rng.randint(0, 3))]
 
     if mode is None:
         mode = "object" if rng.random() < 0.25 else "args"
@@ -480,11 +519,17 @@ def gen_input(rng, decls, links, family, mode=None):
         lacks = [c for c in CLASSES if c not in has]
         names = [rng.choice(has or list(CLASSES)), rng.choice(lacks or list(CLASSES))] + [rng.choice(list(CLASSES)) for _ in range(rng.randint(0, 1))]
         rng.shuffle(names)
-        value = [spec(rng, cname=c, with_keys=tparams if supply else None) for c in names]
+        value = [spec(rng, cname=c, with_keys=tparams if supply else None, linked=tparams) for c in names]
         if mode == "object":
             obj[d["key"]] = value
         else:
             argv.append(["opt", d["key"], value])
+    # a class argument that holds a link target is often given as a whole spec in its OWN config file: the parse keeps the
+    # file's __path__, and save(multifile=True) writes the value back to a file of its own — which must not hold the target
+    if mode == "args":
+        for d in classy:
+            if d["kind"] == "class" and any(l["tgt"].startswith(d["key"] + ".init_args.") for l in links) and rng.random() < 0.4:
+                argv.append(["opt", d["key"], class_value(d), "file"])
     # spelling / transport of the options: an argument declared with a second option string is given through it half of
     # the time (whether it is a source or a link target); a whole class spec is handed over in its own config file half
     # of the time (the parse keeps the file's __path__, save() writes the value back to a file of its own)
@@ -549,7 +594,45 @@ def generate(rng, tier):
                 cases.append(dict(case, aspect=1))
     cases += gen_chains(rng, 25 if tier == "quick" else 300)
     cases += gen_whole(rng, 30 if tier == "quick" else 400)
+    cases += gen_nested_source(rng, 15 if tier == "quick" else 200)
     cases += gen_trees(rng, 90 if tier == "quick" else 900)
+    cases += gen_convert(rng, 30 if tier == "quick" else 400)
+    return cases
+
+
+def gen_convert(rng, n):
+    """Well-typed family for (i) the automatic Namespace -> dict conversion of apply_parsing_links — an identity link from
+    a group of ints to a Dict[str, int]-typed argument (by the TARGET's type hint), a link from the group through
+    dsum(d: dict) (by the compute function's parameter annotation) — and (ii) a REQUIRED __init__ parameter as link target
+    (a -> c.init_args.p with c given as a Req spec that leaves p out: the target is not required from the user)."""
+    cases = []
+    for _ in range(n):
+        gk = rng.choice(["g", "h"])
+        members = rng.sample(["x", "y", "z"], rng.randint(1, 3))
+        decls = [{"key": gk + "." + k, "kind": "int", "default": rand_val(rng, "int"), "required": False, "alias": None} for k in members]
+        for k in ("a", "t"):
+            decls.insert(rng.randint(0, len(decls)), {"key": k, "kind": "int", "default": rand_val(rng, "int"), "required": False,
+                                                      "alias": "long" if rng.random() < 0.2 else None})
+        decls.insert(rng.randint(0, len(decls)), {"key": "m", "kind": "dict", "default": None if rng.random() < 0.4 else rand_val(rng, "dict"),
+                                                  "required": False, "alias": None})
+        decls.insert(rng.randint(0, len(decls)), {"key": "c", "kind": "class", "default": None if rng.random() < 0.5 else spec(rng),
+                                                  "required": False, "alias": None})
+        links = [{"src": [gk], "tgt": "m", "fn": None}]
+        if rng.random() < 0.6:
+            links.append({"src": [gk], "tgt": "t", "fn": rng.choice([FN["dsum"], FN["dsum"], FN["gsum"]])})
+        if rng.random() < 0.75:
+            links.append({"src": [rng.choice(["a", gk + "." + members[0]])], "tgt": "c.init_args.p", "fn": rng.choice([None, FN["inc"]])})
+        rng.shuffle(links)
+        for _ in range(4):
+            x = gen_input(rng, decls, links, "B")
+            if rng.random() < 0.6:
+                v = spec(rng, cname="Req", linked=["p"])
+                if x["mode"] == "object":
+                    x["obj"]["c"] = v
+                else:
+                    x["argv"] = [it for it in x["argv"] if not (it[0] == "opt" and it[1].startswith("c"))]
+                    x["argv"].insert(rng.randint(0, len(x["argv"])), ["opt", "c", v] + (["file"] if rng.random() < 0.6 else []))
+            cases.append(dict(decls=decls, links=links, aspect=0, full=False, second=None, **x))
     return cases
 
 
@@ -588,6 +671,34 @@ def gen_chains(rng, n):
                     x["obj"] = nest([(chained, v)] + flat(x["obj"]))
                 else:
                     x["argv"].insert(0, ["cfg", nest([(chained, v)])])
+            case = dict(decls=decls, links=links, aspect=0, full=True, **x)
+            case["second"] = second_input(rng, decls, x)
+            cases.append(case)
+    return cases
+
+
+def gen_nested_source(rng, n):
+    """The one overlap the repaired _initial_input_checks still accepts: a later SOURCE that contains an earlier TARGET
+    (a -> g.x, then g -> t through gsum / dsum). It is harmless only because the links are applied in declaration order:
+    t must be computed from the group AFTER g.x was overwritten. Declared the other way round the second call is refused.
+    Int arguments only, whole pipeline modelled."""
+    cases = []
+    for _ in range(n):
+        gk = rng.choice(["g", "h"])
+        members = rng.sample(["x", "y", "z"], rng.randint(1, 3))
+        keys = [gk + "." + k for k in members] + rng.sample(["a", "b", "t", "u", "w"], 3)
+        rng.shuffle(keys)
+        decls = [{"key": k, "kind": "int", "default": rand_val(rng, "int"), "required": False,
+                  "alias": "long" if rng.random() < 0.2 else None} for k in keys]
+        plain = [k for k in keys if "." not in k]
+        inner = {"src": [plain[0]], "tgt": gk + "." + members[0], "fn": rng.choice([FN["inc"], None])}
+        outer = {"src": [gk], "tgt": plain[1], "fn": rng.choice([FN["gsum"], FN["dsum"]])}
+        links = [inner, outer] if rng.random() < 0.75 else [outer, inner]
+        if rng.random() < 0.3:
+            links.insert(rng.randint(0, 2), {"src": [plain[0], plain[2]], "tgt": gk + "." + members[-1], "fn": FN["add"]} if len(members) > 1
+                         else {"src": [plain[2]], "tgt": plain[2] + "x", "fn": None})
+        for _ in range(4):
+            x = gen_input(rng, decls, links, "B")
             case = dict(decls=decls, links=links, aspect=0, full=True, **x)
             case["second"] = second_input(rng, decls, x)
             cases.append(case)
@@ -720,7 +831,7 @@ def g_val(v):
     raise ValueError(v)
 
 
-G_TY = {"int": "TInt", "str": "TStr", "list": "TListInt", "any": "TAny"}
+G_TY = {"int": "TInt", "str": "TStr", "list": "TListInt", "any": "TAny", "dict": "TDictInt"}
 
 
 def g_decl(d):
@@ -786,13 +897,14 @@ def term(case, obs):
             gs(sub["name"]), g_list([g_decl(d) for d in sub["decls"]], "decl"), g_list(slinks, "link"), g_list(sitems, "item"),
             g_list([g_N(b) for b in obs.get("sub_build", [])], "N"), g_list([g_key(k) for k in obs.get("sub_required", [])], "key")))
     return ("{| c_classes := %s; c_decls := %s; c_links := %s; c_input := %s; c_full := %s; c_aspect := %s; c_fixed := %s; c_sub := %s; "
-            "o_build := %s; o_required := %s; o_pre := %s; o_parse := %s; o_dump := %s; %so_save := %s; o_reparse := %s |}") % (
+            "o_build := %s; o_required := %s; o_pre := %s; o_parse := %s; o_dump := %s; %so_save := %s; o_reparse := %s; o_given := %s |}") % (
         _CLASSES_TERM, g_list([g_decl(d) for d in case["decls"]], "decl"), g_list(links, "link"), inp,
         g_bool(case["full"]), g_N(case["aspect"]), g_N(fixed_mask()), g_sub,
         g_list([g_N(b) for b in obs["build"]], "N"), g_list([g_key(k) for k in obs["required"]], "key"),
         g_opt(None if obs["pre"] is None else g_val(obs["pre"])), g_pres(obs["parse"]),
         g_opt(None if obs["dump"] is None else g_val(obs["dump"])), g_second,
-        g_opt(None if obs.get("save") is None else g_val(obs["save"])), g_opt(None if rp is None else g_pres(rp)))
+        g_opt(None if obs.get("save") is None else g_val(obs["save"])), g_opt(None if rp is None else g_pres(rp)),
+        g_opt(None if obs.get("given") is None else g_pres(obs["given"])))
 
 
 # ------------------------------------------------------------------------------------------------ evidence helpers
@@ -854,6 +966,8 @@ def describe(case, obs):
                      "save(multifile=True): main file with the nested files put back": unc(obs.get("save")),
                      "files written by save": obs.get("save_files"), "save_error": obs.get("save_error"),
                      "reparse_of_dump": [obs["reparse"][0], unc(obs["reparse"][1])] if obs["reparse"] else None,
+                     "the rejected input again, with a value GIVEN for every linked init_arg in every class spec":
+                         ([obs["given"][0], unc(obs["given"][1])] if obs.get("given") else None),
                      "SECOND parse on the same parser object (after lists at link targets of the first result were edited in place)":
                          {"input": None if case.get("second") is None else {k: case["second"][k] for k in ("mode", "env", "argv", "obj")},
                           "cfg_before_links": unc(obs.get("pre2")),
@@ -927,6 +1041,12 @@ META = {
         "parser, the subcommand parser or both, parse and dump through the top parser. "
         "Since round 5 the link grammar of the model includes a whole class-typed argument as target (add_link no longer "
         "answers EUnmodelled for it), so every theorem above covers such links too. "
+        "Since round 6 the dump statements are also proved for the REPAIRED pair the current code is tied to (both repairs "
+        "are in /repo; the judge uses build_fixed / strip_fixed): C15_fixed_target_absent_from_dump (no target key of any "
+        "accepted link in strip_fixed p cfg, any configuration), C15_fixed_dump_changes_only_targets (every key that overlaps "
+        "no target is dumped unchanged), C15_fixed_tree_targets_absent_from_dump (the same through the TOP parser of a tree, "
+        "including the items of a list of classes below the subcommand's key) and C15_fixed_tree_link_invariant (the tree "
+        "invariant without the overlap guard). "
         "Examples show each hypothesis satisfiable by a non-trivial parser/input."),
     "level_note": (
         "The theorems are about the hand-written Gallina model, which is written in the shape of _link_arguments.py (bugs "
@@ -938,10 +1058,14 @@ META = {
         "Only exercised, not proved: that dump->parse preserves the SOURCE values (C01's subject), type adaptation (identity "
         "on the tie's value space), env/argv text rendering, the collection phase of parser trees (the configuration the "
         "top-level apply_parsing_links receives is an observed input), apply_on='instantiate' (C16), whole list-of-classes targets, "
-        "subcommands nested deeper than one level, "
-        "Namespace->dict conversion by type hint, compute functions with side effects. Trusted: Coq kernel/vm_compute, the "
+        "subcommands nested deeper than one level, compute functions with side effects, dump(skip_default=True) and "
+        "dump(skip_link_targets=False). The automatic Namespace->dict conversion of apply_parsing_links (by the target's type "
+        "hint, by the compute function's parameter annotation) is the identity on the model's value type: it is tied through "
+        "the Dict[str,int] type check (TDictInt) and the function dsum(d: dict), not proved. 'The target is not required from "
+        "the user' for a REQUIRED __init__ parameter (class-parser code in _signatures/_typehints) is judged by the spec only: "
+        "an input rejected before the link phase is parsed again with the linked init_args given. Trusted: Coq kernel/vm_compute, the "
         "runner tie/impl/c15_links.py (hooks apply_parsing_links in the harness process to read the pre-link configuration), "
-        "the Python/Gallina twins of the 10 tie compute functions."),
+        "the Python/Gallina twins of the 11 tie compute functions."),
     "technique": (
         "Rocq proof: frame lemmas for get/set/pop over an ordered nested map, invariant preserved by induction over the "
         "link_arguments calls (well-formedness, no equal-key chains, marks, required set) and over the applied link list "
